@@ -20,6 +20,9 @@ import (
 type GlobCase struct {
 	Paths    []string `json:"paths"` // files; a trailing '/' denotes an (empty) directory
 	Patterns []string `json:"patterns"`
+	// ViaChain: the pattern tasks are not requested themselves but reached through two levels
+	// of task dependencies (top -> mid -> pattern tasks)
+	ViaChain bool `json:"via_chain,omitempty"`
 }
 
 var globPool = []string{
@@ -41,6 +44,13 @@ func (c GlobCase) Source() string {
 	for i, p := range c.Patterns {
 		n := patternTaskName(i)
 		fmt.Fprintf(&b, "task %s(\"%s\") {\n    run %s 0\n}\n\n", n, p, n)
+	}
+	if c.ViaChain {
+		var names []string
+		for i := range c.Patterns {
+			names = append(names, patternTaskName(i))
+		}
+		fmt.Fprintf(&b, "task mid(%s) {\n    run mid 0\n}\n\ntask top(mid) {\n    run top 0\n}\n", strings.Join(names, ", "))
 	}
 	return b.String()
 }
@@ -71,6 +81,9 @@ func execGlob(s *ev.Shard, root string, c GlobCase) *rp.Fail {
 	for i := range c.Patterns {
 		tasks = append(tasks, patternTaskName(i))
 	}
+	if c.ViaChain {
+		tasks = []string{"top"}
+	}
 	var first map[string][]string
 	for round := 0; round < 2; round++ {
 		entries, err := model.Walk(root)
@@ -88,6 +101,11 @@ func execGlob(s *ev.Shard, root string, c GlobCase) *rp.Fail {
 		rec := &recorder{count: map[string]int{}}
 		if _, err := sf.Run(iostream.Null(), rec, true, tasks...); err != nil {
 			return &rp.Fail{Sig: "expansion-error", Size: size, Msg: fmt.Sprintf("tree %v: running the tasks that use the patterns failed: %v", c.Paths, err)}
+		}
+		for i := range c.Patterns {
+			if rec.count[patternTaskName(i)] == 0 {
+				return &rp.Fail{Sig: "harness", Msg: "pattern task " + patternTaskName(i) + " did not run (C03's subject), cannot judge its glob"}
+			}
 		}
 		got := map[string][]string{}
 		for _, pat := range c.Patterns {
@@ -131,7 +149,7 @@ func execGlob(s *ev.Shard, root string, c GlobCase) *rp.Fail {
 					}
 				}
 				if hidden && len(want) > 0 {
-					s.NonTrivial(strings.Join(c.Paths, ",") + "\x00" + pat)
+					s.NonTrivial(strings.Join(c.Paths, ",") + "\x00" + pat + fmt.Sprint(c.ViaChain))
 				}
 				if len(want) > 0 {
 					s.Class("pattern_with_matches")
